@@ -682,6 +682,12 @@ func spawn(dir string) (*child, error) {
 	cmd := exec.Command(os.Args[0], "-test.run=^TestCx16EventsChild$", "-test.timeout=0")
 	cmd.Env = append(os.Environ(), "VERIF_CX16EV_CHILD="+dir, "VERIF_OUT=", "GOMAXPROCS=2")
 	cmd.ExtraFiles = []*os.File{w}
+	// what the child prints (a panic, a dump of the Go runtime) is kept for the diagnosis of an
+	// exit that casket's signal handling does not explain
+	if f, ferr := os.Create(filepath.Join(dir, "stderr.txt")); ferr == nil {
+		cmd.Stderr = f
+		defer f.Close()
+	}
 	stdin, err := cmd.StdinPipe()
 	if err != nil {
 		return nil, err
@@ -757,6 +763,13 @@ var sigNum = map[string]syscall.Signal{"TERM": syscall.SIGTERM, "INT": syscall.S
 type hang struct{ what string }
 
 func (h hang) Error() string { return h.what }
+
+type crash struct {
+	code   int
+	stderr string
+}
+
+func (c crash) Error() string { return fmt.Sprintf("exit code %d: %s", c.code, c.stderr) }
 
 // runHistory executes one history in a fresh child process and returns the trace lines.
 func runHistory(root string, id int, h hcase, table map[string]cfgSpec, rnd *rand.Rand) ([]string, error) {
@@ -848,8 +861,21 @@ func runHistory(root string, id int, h hcase, table map[string]cfgSpec, rnd *ran
 				<-done
 				return nil, hang{fmt.Sprintf("the process did not exit after signals %v", o.S)}
 			}
-			if code == -1 {
-				return nil, fmt.Errorf("died-of-signal")
+			ints := 0
+			for _, s := range o.S {
+				if s == "INT" {
+					ints++
+				}
+			}
+			if code != 0 && !(code == 2 && ints >= 2) {
+				// casket's handlers leave with 0 (TERM, QUIT, first INT) or 2 (second INT); anything
+				// else is the signal's default action (-1: handlers not installed yet, a harness
+				// race), a panic or a crash of the runtime
+				b, _ := os.ReadFile(filepath.Join(dir, "stderr.txt"))
+				if len(b) > 1200 {
+					b = b[:1200]
+				}
+				return nil, crash{code: code, stderr: string(b)}
 			}
 		default:
 			c.send(command{C: "op", Op: o, Gen: gen})
@@ -1041,9 +1067,9 @@ func TestCx16Events(t *testing.T) {
 	}
 	sort.Slice(all, func(i, j int) bool { return all[i].key() < all[j].key() })
 	rnd := hx.Rand()
-	n := 300
+	n := 200
 	if hx.Thorough() {
-		n = 4000
+		n = 3000
 	}
 	cases := all
 	if hx.Replay() == "" {
@@ -1079,12 +1105,17 @@ func TestCx16Events(t *testing.T) {
 				if _, isHang := err.(hang); isHang && try >= 1 {
 					break // a hang seen twice in a row is an observation
 				}
+				if cr, isCrash := err.(crash); isCrash && try >= 1 && strings.Contains(cr.stderr, "panic") {
+					break // so is a panic
+				}
 			}
 			mu.Lock()
 			defer mu.Unlock()
 			if err != nil {
 				if hg, isHang := err.(hang); isHang {
 					res.Add(hx.Mismatch{Key: prefix + "hang/" + h.key(), What: hg.what + " (twice in a row, fresh process each time)", Case: h})
+				} else if cr, isCrash := err.(crash); isCrash && strings.Contains(cr.stderr, "panic") {
+					res.Add(hx.Mismatch{Key: prefix + "crash/" + h.key(), What: "the process panicked (twice in a row, fresh process each time): " + cr.Error(), Case: h})
 				} else if res.Infra == "" {
 					res.Infra = "history " + h.key() + ": " + err.Error()
 				}
@@ -1099,7 +1130,10 @@ func TestCx16Events(t *testing.T) {
 	}
 
 	// traces: one file per 150 histories; every history starts with a script event carrying its key
-	const perFile = 150
+	perFile := 250
+	if hx.Thorough() {
+		perFile = 1000
+	}
 	var tw *hx.TraceWriter
 	nInFile, fileNo := 0, 0
 	flush := func() {
